@@ -203,7 +203,30 @@ def fill(claim, na):
         "conditioning.",
         "DESIGN.md section 4, C09",
     )
-    for pid in ( "C06", "C11", "C13",
+    claim(
+        "C11", "other",
+        "term extraction of the Z-HIT reconstruction and offset residual to sympy (identity with 2/pi*I + gamma*D, gamma=-pi/6; weight factorisation; translation invariance) plus def-use pairing of worker tuples and phase keys",
+        "Decides the repository's own part of the Z-HIT mechanism: _reconstruct evaluates 2/pi*integral(phase) + gamma*dphase with "
+        "gamma = -pi/6, integrating the phase interpolator from the first ln omega to the current one, identically in the impedance "
+        "and admittance branches; the offset residual is weights x g(reconstruction + offset - ln|X|) so zero-weight points cannot "
+        "influence the offset and a constant factor on |Z| shifts the offset by its logarithm; all-zero/negative weights are refused; "
+        "X_fit = rect(exp(ln_modulus + offset), phase) with the phase of the same (interpolation, smoothing) entry; window support and "
+        "clipping to [0, 1].",
+        "Not decided: how well a smoothed/interpolated phase recovers an ideal R-C/R-L/RC modulus (numerics of SciPy/statsmodels), "
+        "the 'within a few percent' tolerance, conditioning of quad.",
+        "DESIGN.md section 4, C11",
+    )
+    claim(
+        "C13", "other",
+        "term extraction to sympy and bounded equality ladder against the registered K/RQ element equations; partial-fraction identity; closed-form integrals; scaling-degree substitution",
+        "Decides the kernel clause of DRT estimation: the TR-NNLS design matrix and model impedance are the real/imaginary parts of the "
+        "registered K element (R/(1+j w tau)) discretised with delta ln tau; b-vector sign convention; gamma is rescaled by R_pol; the "
+        "Loewner partial-fraction extraction gamma_k = -residue/eigenvalue, tau_k = -1/eigenvalue reproduces sum R_k/(1+j w tau_k); "
+        "m(RQ)fit closed-form gamma(tau) for RQ integrates to R and the Gaussian RC replacement has area R; scaling degrees of gamma, tau.",
+        "Not decided: regularisation quality, peak positions on noisy data, optimiser convergence.",
+        "DESIGN.md section 4, C13",
+    )
+    for pid in ("C06",
                 "C19"):
         na(pid, NOT_YET)
     na("C10", "statistical behaviour of a heuristic pipeline (noise tracking, drift margin) on noisy inputs: quantifies over "
